@@ -1006,3 +1006,10 @@ Proof.
     | |- context [match ?e with _ => _ end] => destruct e; try discriminate
     end.
 Qed.
+
+(* any function that returns an ordered, stable permutation - Go's sort.Stable with its insertion
+   blocks and symMerge is one, for every length - computes what the model computes on D *)
+Theorem any_stable_sort_agrees (f : list elem -> list elem) :
+  (forall l, Permutation l (f l) /\ StronglySorted elem_le (f l) /\ forall z, filter (elem_eqb z) (f l) = filter (elem_eqb z) l) ->
+  forall l, consistent l -> sort_by l = Ok (f l).
+Proof. intros H l HC. destruct (H l) as (P & S & F). apply sort_by_unique; assumption. Qed.
